@@ -218,10 +218,12 @@ pub enum Cause {
     TimeoutFail,
     CancelPoll,
     CancelStep,
+    /// a restart whose `started()` fails
+    RestartErr,
 }
 impl Cause {
     pub fn failure(self) -> bool {
-        matches!(self, Cause::StartErr | Cause::HandlerPanic | Cause::TimeoutFail | Cause::CancelPoll | Cause::CancelStep)
+        matches!(self, Cause::StartErr | Cause::HandlerPanic | Cause::TimeoutFail | Cause::CancelPoll | Cause::CancelStep | Cause::RestartErr)
     }
 }
 
@@ -270,6 +272,12 @@ pub fn apply_cause(g: &mut G, fam: &mut Fam, cause: Cause) {
             fam.insert(0, at, vec![op]);
         }
         Cause::StartErr => fam.sc.faults.push(Fault { actor: 0, kind: FaultKind::StartErr { nth: 0 } }),
+        Cause::RestartErr => {
+            let at = fam.pos(g, 0);
+            let op = if g.chance(1, 2) { Op::Restart { h: PRIMARY } } else { Op::Send { h: PRIMARY, id: g.id(), work: vec![Work::CtxRestart] } };
+            fam.insert(0, at, vec![op]);
+            fam.sc.faults.push(Fault { actor: 0, kind: FaultKind::StartErr { nth: 1 } })
+        }
         Cause::HandlerPanic => {
             let k = g.range(0, 6) as u32;
             fam.sc.faults.push(Fault { actor: 0, kind: FaultKind::PanicAtCb { k } })
